@@ -113,13 +113,13 @@ PROPERTIES = {
         'technique': TECH,
     },
     'C18': {
-        'units': [ef.PadBunchProfiles, ef.WakePotential, ef.UpdateCSR, ef.ElectricFieldCtor, ef.ElectricFieldCtor11, ef.InitWakeLossFFT],
+        'units': [ef.PadBunchProfiles, ef.WakePotential, ef.UpdateCSR, ef.ElectricFieldCtor, ef.ElectricFieldCtor11, ef.InitWakeLossFFT, mainspec.MainWiring],
         'native_sweep': {'harness': 'ef_replay', 'runs': ef.EF_RUNS + [['wake', 16, '11', 16, n_, 8] for n_ in (34, 38, 42, 46, 50, 54, 58, 62, 66, 70)] + [['fftw', 2, 64], ['fftw', 127, 129], ['fftw', 255, 257], ['fftw', 511, 513], ['fftw', 1023, 1025], ['fftw', 2048, 2048]]},
         'lemmas': [],
         'level': 'other',
         'claim': 'every cell a transform reads is determined by the current profile/impedance or is a never-written zero: train layout incl. zeros outside the bunch ranges, '
                  'loss spectrum rewritten below n/2 and zero from n/2, class invariants re-established by wakePotential; for all lengths and patterns. '
-                 'updateCSR on an object with non-zero bunch spacing is outside the claim (main uses separate objects)',
+                 'updateCSR on an object with non-zero bunch spacing is outside the claim; that main computes the CSR spectrum on an object of its own is an obligation (main#wiring.csr_field_is_an_object_of_its_own)',
         'assumptions': [A_IDEAL, A_LIB, DROPS, 'A-FFTW-R2C', 'A-FFTW-C2R (observed: c2r never modifies in[k >= n/2])'],
         'uncovered': ['interleaving updateCSR with wakePotential on one object with spacing > 0 (updateCSR writes the profile at offset 0, not re-zeroed)', 'bit-identity (ideal arithmetic)'],
         'explanation': 'freshness expressed functionally: posts fix the value of every transform input cell',
